@@ -76,6 +76,28 @@ CHECKS["C09"] = dict(
     note="Trusted: reference encoder and JSON reader/writer in harness/c09 (no encoding/json). Plain build. Known findings: Encode substitutes placeholders in place (recorded, not repaired).",
     design="3/C09")
 
+CHECKS["C10"] = dict(
+    engine="vsched",
+    category="exploration",
+    technique="bounded exhaustive enumeration of frame strings (all strings <= 5/6 over 18 protocol bytes + templates) through the real decoder in watchdog-supervised worker processes, then one representative per outcome class against a live server/client under the controlled scheduler",
+    text="Every string of length <= 5 (quick) / <= 6 (thorough, 3.6e7) over the 18 protocol-significant bytes is fed as first frame to a fresh parser, completed with every {binary,text} combination of up to 2 frames, and every finished packet decoded for 5 handler signature families (and as CONNECT auth); templates add absurd attachment counts, a placeholder-number table at every nesting position, every truncation of valid packets and 20-25 digit ids. Oracle: packet or error, never a panic (recovered in the worker), never a hang (10 s watchdog, confirmed by re-running alone). One representative per outcome class (78 classes, cross-checked complete) plus hand-picked inputs is then sent to a live sio.Server over a harness-implemented Engine.IO socket (and 20 to a real Go client over the in-process link): no uncaught panic on any modelled thread, errors reach OnError or close the connection, a second and a fresh third connection still complete an echo.",
+    note="Trusted: worker/watchdog plumbing; vsched for the process half (bound 1 quick, 2 thorough). Coverage-guided fuzzing and the sonic serializer named in the quantifier are not covered (exhaustive small-scope enumeration instead).",
+    design="3/C10")
+CHECKS["C15"] = dict(
+    engine="vsched",
+    category="model_checking",
+    technique="exhaustive grid over the back-off function with the random draw scripted; real Manager<->Server pair under the controlled scheduler in virtual time for outage enumeration (fault enumeration) and deviation-bounded exploration of offline traffic",
+    text="Back-off: full grid of (delay, max, jitter incl. invalid ones, attempt 0..70 and overflowing values, 21 random draws): delay in (0, max], first delay from ReconnectionDelay, no panic. Reconnect machine: the first connection is cut abruptly and the next j = 0..5 dials fail (refused at once, or after a 20 s dial timeout) with attempt limit 0..5, plus two outages in a row; the timestamped reconnect_attempt / reconnect_error / reconnect_failed / reconnect / connect / disconnect events are judged exactly in virtual time. Offline traffic: all 24 orders of {plain, volatile, ack, ack+timeout} emitted between the application's disconnect and connect callbacks, before/during/after placements, and a server that greets with an ack request, explored to the deviation bound: non-volatile events arrive exactly once on the new session, volatile ones never, each ack callback once.",
+    note="Trusted: vsched virtual clock; in-process link as the network (dial = handshake request). Handler-entry order is not judged here (C02 known finding). Server handlers are registered in a namespace middleware (before the CONNECT reply); the async-connection-handler race is C01's.",
+    design="3/C15")
+CHECKS["C17"] = dict(
+    engine="vsched",
+    category="model_checking",
+    technique="full request matrix executed on the real eio.Server under the controlled scheduler against a reference validator; exhaustive/bounded interleaving exploration of handshake || Close || poll; exhaustive scripted id-collision sequences",
+    text="All 1600 requests (5 methods x 5 EIO versions x 4 transports x 4 sids x b64 x j) in 4 server states are executed, each in its own run, and judged by a validator that lists the faults present: 503 for a closed server, otherwise 400 with a protocol code of one of the faults, no NewSocketCallback, store unchanged, the live session still delivers its queued packet. Handshake || Server.Close (|| poll, || second handshake) is explored (all interleavings for the 2-thread case, preemption/delay bounded for 3 threads): a closed server owns no live session and every accepted session saw OnClose. crypto/rand is an environment answer: all 8191 same/different answer sequences of length <= 12 drive 2-13 handshakes: collisions are retried, accepted ids are unique among live sessions, a clean 5xx only after the retry limit. Supplementary: 1e5/1e6 generated ids pairwise distinct.",
+    note="Trusted: reference validator (codes from server_error.go / Engine.IO v4); vsched semantics. Concurrent forced collisions are observations only (outside the statement).",
+    design="3/C17")
+
 NOT_APPLICABLE = {
 }
 
